@@ -17,7 +17,8 @@ Definition split_char : splitter := fun d =>
 Fixpoint mem_byte (b : N) (s : bytes) : bool :=
   match s with [] => false | x :: r => N.eqb b x || mem_byte b r end.
 
-(* the symbol cutter  [B]?[^BA]*(?:[A]|$|(?=[B]))  as a direct scanner; B = cut-before set,
+(* the symbol cutter  [B]?[^BA]*(?:[A]|$|(?=[B]))  (a class is left out of the pattern when its set is
+   empty: fix c3e3b03) as a direct scanner; B = cut-before set,
    A = cut-after set (both read as plain byte sets: see class_safe in the C15 statements).
    `tok_run` consumes the maximal run of bytes outside A and B and an A byte after it *)
 Fixpoint tok_run (bs afs : bytes) (acc : bytes) (d : bytes) : bytes * bytes :=
